@@ -3,7 +3,7 @@
 use crate::json::J;
 use std::collections::BTreeMap;
 
-#[derive(Clone, Debug, Default)]
+#[derive(Clone, Debug)]
 pub struct Report {
     /// executions of the code under test (one scenario executed once = 1)
     pub evaluations: u64,
@@ -15,6 +15,23 @@ pub struct Report {
     pub maxima: BTreeMap<String, u64>,
     pub samples: Vec<J>,
     pub notes: Vec<J>,
+    /// op kind (ops::Op::kind_id) x outcome tag (exec::Tag) counts of stream-side calls
+    pub op_grid: [[u64; 5]; 17],
+}
+
+impl Default for Report {
+    fn default() -> Report {
+        Report {
+            evaluations: 0,
+            runs: 0,
+            sigs: Vec::new(),
+            counters: BTreeMap::new(),
+            maxima: BTreeMap::new(),
+            samples: Vec::new(),
+            notes: Vec::new(),
+            op_grid: [[0; 5]; 17],
+        }
+    }
 }
 
 impl Report {
@@ -45,6 +62,11 @@ impl Report {
         for (k, v) in o.maxima.iter() {
             self.max(k, *v);
         }
+        for i in 0..17 {
+            for j in 0..5 {
+                self.op_grid[i][j] += o.op_grid[i][j];
+            }
+        }
         for s in o.samples.iter() {
             self.sample(s.clone());
         }
@@ -71,6 +93,15 @@ impl Report {
             .with("maxima", m)
             .with("samples", J::Arr(self.samples.clone()))
             .with("notes", J::Arr(self.notes.clone()))
+            .with(
+                "op_grid",
+                J::Arr(
+                    self.op_grid
+                        .iter()
+                        .map(|r| J::Arr(r.iter().map(|v| J::u(*v)).collect()))
+                        .collect(),
+                ),
+            )
     }
     pub fn from_json(j: &J) -> Report {
         let mut r = Report {
@@ -93,6 +124,15 @@ impl Report {
         }
         if let Some(a) = j.get("notes").and_then(|c| c.as_arr()) {
             r.notes = a.clone();
+        }
+        if let Some(a) = j.get("op_grid").and_then(|c| c.as_arr()) {
+            for (i, row) in a.iter().enumerate().take(17) {
+                if let Some(row) = row.as_arr() {
+                    for (k, v) in row.iter().enumerate().take(5) {
+                        r.op_grid[i][k] = v.as_u64().unwrap_or(0);
+                    }
+                }
+            }
         }
         r
     }
